@@ -18,6 +18,8 @@ import (
 	sgossip "github.com/andydunstall/piko/server/gossip"
 	"github.com/andydunstall/piko/server/upstream"
 
+	"github.com/andydunstall/yamux"
+
 	"verif/harness/vlib"
 )
 
@@ -81,11 +83,11 @@ type c20op struct {
 	yield int
 }
 
-var c20Kinds = []string{"addConn", "removeConn", "select", "selectRemote", "applyDelta", "applyDigestPkt", "digestDelta", "liveness", "compact", "expire", "readNodes", "readLookup", "readMeta", "readGossip", "leaveRemote"}
-var c20Weights = []int{6, 5, 6, 3, 8, 5, 4, 3, 3, 4, 3, 3, 2, 3, 3}
+var c20Kinds = []string{"addRealConn", "closeRealConn", "addConn", "removeConn", "select", "selectRemote", "applyDelta", "applyDigestPkt", "digestDelta", "liveness", "compact", "expire", "readNodes", "readLookup", "readMeta", "readGossip", "leaveRemote"}
+var c20Weights = []int{2, 2, 6, 5, 6, 3, 8, 5, 4, 3, 3, 4, 3, 3, 2, 3, 3}
 
 func TestC20Program(t *testing.T) {
-	vlib.SetRule("C20", "TestC20Program", "rapid generates a concurrent program: 3-8 goroutines, each a drawn list of operations on ONE real node stack (upstream manager + cluster state + syncer + gossip state + failure detector): upstream connect/disconnect/select, incoming deltas and digest packets about 3 remote nodes (addresses, endpoint counts, deletes, leave markers), digest/delta computation, liveness evaluation, local compaction, expiry sweeps, status reads - with drawn yields, and in two fifths of the cases repeated 20 or 400 times by every goroutine; run under the race detector; oracle: no race report, no panic, every goroutine finishes (watchdog: no operation started for 20 s = deadlock), and at quiescence registry == cluster endpoints == gossip endpoint counts == model and the routing table mirrors the gossip view of every remote node; non-trivial = at least two goroutines touch both the registry and the gossip state")
+	vlib.SetRule("C20", "TestC20Program", "rapid generates a concurrent program: 3-8 goroutines, each a drawn list of operations on ONE real node stack (upstream manager + cluster state + syncer + gossip state + failure detector): upstream connect/disconnect/select (fake upstreams and real ConnUpstreams on yamux sessions whose connection drops before they are deregistered, with a request in between), incoming deltas and digest packets about 3 remote nodes (addresses, endpoint counts, deletes, leave markers), digest/delta computation, liveness evaluation, local compaction, expiry sweeps, status reads - with drawn yields, and in two fifths of the cases repeated 20 or 400 times by every goroutine; run under the race detector; oracle: no race report, no panic, every goroutine finishes (watchdog: no operation started for 20 s = deadlock), and at quiescence registry == cluster endpoints == gossip endpoint counts == model and the routing table mirrors the gossip view of every remote node; non-trivial = at least two goroutines touch both the registry and the gossip state")
 	vlib.Run(t, "C20", func(c *vlib.Case) {
 		st := newFullStackDelay(c.Dur("notifyDelay", 0, 20*time.Microsecond, 200*time.Microsecond))
 		G := c.Int("goroutines", 3, 8)
@@ -140,6 +142,22 @@ func TestC20Program(t *testing.T) {
 		}
 		var regMu sync.Mutex
 		regs := map[*fakeUp]*reg{}
+		type realConn struct {
+			u       *upstream.ConnUpstream
+			ep      string
+			sess    *yamux.Session
+			peer    net.Conn
+			closing bool
+			removed atomic.Bool
+		}
+		var realMu sync.Mutex
+		var reals []*realConn
+		defer func() {
+			for _, r := range reals {
+				r.peer.Close()
+				r.sess.Close()
+			}
+		}()
 		var wg sync.WaitGroup
 		done := make(chan struct{})
 		for g := 0; g < G; g++ {
@@ -161,7 +179,53 @@ func TestC20Program(t *testing.T) {
 						rid := fmt.Sprintf("r%d", o.a)
 						raddr := fmt.Sprintf("127.0.0.1:%d", 7100+o.a)
 						ep := simEps[o.a]
+						if rep >= 20 && (o.kind == "addRealConn" || o.kind == "closeRealConn") {
+							continue // real sessions are expensive: not in the long hammer
+						}
 						switch o.kind {
+						case "addRealConn":
+							// a real ConnUpstream: a yamux session over an in-memory pipe, as the
+							// upstream server registers for a connected listener
+							a, b := net.Pipe()
+							cfg := yamux.DefaultConfig()
+							cfg.EnableKeepAlive = false
+							cfg.LogOutput = nil
+							cfg.Logger = log.NewNopLogger().StdLogger(0)
+							sess, err := yamux.Server(a, cfg)
+							if err != nil {
+								panic(err)
+							}
+							cu := upstream.NewConnUpstream(ep, sess)
+							st.mgr.AddConn(cu)
+							// (listed only once registered: a removal must not overtake the registration)
+							realMu.Lock()
+							reals = append(reals, &realConn{u: cu, ep: ep, sess: sess, peer: b})
+							realMu.Unlock()
+						case "closeRealConn":
+							// the listener's connection drops: the session closes, and only afterwards
+							// (as in the upstream server's handler) is the upstream deregistered
+							realMu.Lock()
+							var rc *realConn
+							for _, r := range reals {
+								if !r.closing {
+									rc = r
+									r.closing = true
+									break
+								}
+							}
+							realMu.Unlock()
+							if rc != nil {
+								rc.peer.Close()
+								rc.sess.Close()
+								for y := 0; y <= o.b; y++ {
+									runtime.Gosched()
+								}
+								if o.b%2 == 0 {
+									st.mgr.Select(rc.ep, false) // a request arrives in between
+								}
+								st.mgr.RemoveConn(rc.u)
+								rc.removed.Store(true)
+							}
 						case "addConn":
 							r := &reg{u: &fakeUp{ep: ep, id: g*100 + len(own)}}
 							own = append(own, r)
@@ -251,6 +315,11 @@ func TestC20Program(t *testing.T) {
 		for u, r := range regs {
 			if !r.removed.Load() {
 				want[u.ep]++
+			}
+		}
+		for _, r := range reals {
+			if !r.removed.Load() {
+				want[r.ep]++
 			}
 		}
 		if got := st.mgr.Endpoints(); !reflect.DeepEqual(got, want) {
